@@ -162,15 +162,21 @@ impl ToUri for FileID {
     type Error = SarifError;
 
     fn to_uri(&self, files: &FileLibrary) -> Result<String, SarifError> {
-        let path: PathBuf = files
-            .to_storage()
-            .get(*self)
-            .map_err(|_| SarifError::UnknownFile(*self))?
-            .name()
-            .replace('"', "")
-            .into();
-        // This path already comes from an UTF-8 string so it is ok to unwrap here.
-        Ok(format!("file://{}", path.to_str().unwrap()))
+        let path: PathBuf =
+            files.to_storage().get(*self).map_err(|_| SarifError::UnknownFile(*self))?.name().into();
+        // This path already comes from an UTF-8 string so it is ok to unwrap here. Every byte
+        // which is not an unreserved URI character (or a path separator) is percent-encoded, so
+        // that the URI decodes to the path of the file that was read.
+        let mut uri = String::from("file://");
+        for byte in path.to_str().unwrap().bytes() {
+            match byte {
+                b'A'..=b'Z' | b'a'..=b'z' | b'0'..=b'9' | b'-' | b'.' | b'_' | b'~' | b'/' => {
+                    uri.push(byte as char)
+                }
+                _ => uri.push_str(&format!("%{byte:02X}")),
+            }
+        }
+        Ok(uri)
     }
 }
 
